@@ -302,6 +302,22 @@ example : (basicExpand { args := ["a".toList, [], "b c".toList] }
     [.dq [.base (.text "x".toList), .base (.param (.allPos false)), .base (.text "y".toList)]]).fields.map fieldStr
     = ["xa".toList, [], "b cy".toList] := (at_star_field_structure _ _ _).2
 
+/-! ## an empty quoted piece is transparent to pathname expansion -/
+
+/-- **empty_quoted_piece_transparent_to_globbing** (was finding C05-4 `leading_empty_quoted_piece_hides_dotfiles`,
+repaired in /repo a135ffb): an empty quoted string in front of a field changes nothing about its pathname expansion —
+in particular `"".*` lists the dot-files exactly as `.*` does — for every non-empty field, option set and directory. -/
+theorem empty_quoted_piece_transparent_to_globbing (opts : Opts) (names : List Str) (f : Field) (hne : f ≠ []) :
+    globField opts names (Piece.unsplit [] :: f) = globField opts names f := by
+  cases f with
+  | nil => exact absurd rfl hne
+  | cons p r =>
+    simp [globField, patExpand, requiresExpansion, patternText, toPattern, Pattern.escapeLiteral, firstStartsWithDot,
+      PatPiece.str, fieldStr, Piece.str]
+
+example : globField {} [".h".toList, "a".toList] [.unsplit [], .split ".*".toList] = some [".h".toList] := by
+  rw [empty_quoted_piece_transparent_to_globbing _ _ _ (by simp)]; decide
+
 /-! ## the execution context does not matter -/
 
 /-- **word_expansion_reads_only_visible_state** (context sweep): brush's expansion of a word with brace
